@@ -32,6 +32,7 @@ fn run_child(harness: &str, cfg: Value) {
         "c04_request_during_flush" => Box::new(move || harness::queue::c04_request_during_flush(&cfg)),
         "c04" => Box::new(move || harness::queue::c04(&cfg)),
         "c05_drop" => Box::new(move || harness::queue::c05_drop(&cfg)),
+        "c05_busy_producer" => Box::new(move || harness::queue::c05_busy_producer(&cfg)),
         "c05_forget" => Box::new(move || harness::queue::c05_forget(&cfg)),
         "c09" => Box::new(move || harness::queue::c09(&cfg)),
         "c06" => Box::new(move || harness::uow::c06(&cfg)),
